@@ -595,7 +595,7 @@ class Harness:
         if self.ad.prio and prio is None:
             prio = self.ctx.int("p") if self.sym_prio else 0
         self.as_proc(proc)
-        ev = self.guard(lambda: self.ad.reserve_put(self, prio), "reserve_put")
+        ev = self.guard(lambda: self.ad.reserve_put(self, prio), "reserve_put", prop="C01")
         t = self.new_tok("put", ev, prio, proc)
         self.ctx.log("reserve_put", t.seq, ev.triggered)
         self.observe()
@@ -606,7 +606,7 @@ class Harness:
         if self.ad.prio and prio is None:
             prio = self.ctx.int("p") if self.sym_prio else 0
         self.as_proc(proc)
-        ev = self.guard(lambda: self.ad.reserve_get(self, prio, theta), "reserve_get")
+        ev = self.guard(lambda: self.ad.reserve_get(self, prio, theta), "reserve_get", prop="C02")
         t = self.new_tok("get", ev, prio, proc, theta)
         self.ctx.log("reserve_get", t.seq, ev.triggered)
         self.observe()
@@ -618,7 +618,9 @@ class Harness:
         except symx.PathStop:
             raise
         except Exception as e:
-            self.fail(f"{prop}:{what}-raised-{type(e).__name__}", {"msg": str(e)[:120]})
+            if prop in self.oracles:
+                self.fail(f"{prop}:{what}-raised-{type(e).__name__}", {"msg": str(e)[:120]})
+            self.fail(f"CRASH:{what}-raised-{type(e).__name__}", {"msg": str(e)[:120]})
 
     def do_put(self, t, delay=None, key=None):
         """well-formed put with a granted token by its owner"""
@@ -685,6 +687,9 @@ class Harness:
         except symx.PathStop:
             raise
         except Exception as e:
+            side = "C01" if t.kind == "put" else "C02"
+            if side in self.oracles:
+                self.fail(f"{side}:cancel-of-own-{was}-reservation-raised-{type(e).__name__}", {"msg": str(e)[:120]})
             self.fail(f"C07:cancel-of-own-{was}-reservation-raised-{type(e).__name__}", {"msg": str(e)[:120]})
         t.state = "cancelled"
         t.bound = None
@@ -778,7 +783,7 @@ class Harness:
 # scenario families
 
 
-def _prefix_retrieval(h, N, with_transit=True, with_space=False, R2=2, USE=True, RMAX=9, S=2):
+def _prefix_retrieval(h, N, with_transit=True, with_space=False, R2=2, USE=True, RMAX=9, S=2, TRN=1):
     """Build a state with n retrievable items, <=1 in-transit item, retrieval reservations of which a
     subset was cancelled again, optionally outstanding space reservations.  Public API only."""
     ctx = h.ctx
@@ -813,7 +818,7 @@ def _prefix_retrieval(h, N, with_transit=True, with_space=False, R2=2, USE=True,
             k += 1
     n_transit = 0
     if with_transit and ad.timed and ad.avail == "ghost_delay":
-        n_transit = ctx.choice(2, "n_transit")
+        n_transit = ctx.choice(TRN + 1, "n_transit")
         for i in range(n_transit):
             t = h.do_reserve_put()
             ctx.assume(t.state == "granted")
@@ -873,9 +878,18 @@ def _prefix_priority(h, N, side):
     ad = h.ad
     m = 2 + ctx.choice(N - 1, "n_waiting")
     if side == "get":
-        toks = [h.do_reserve_get() for _ in range(m)]
+        toks = []
+        if ad.filt and ctx.choice(2, "filtered-head?"):
+            toks.append(h.do_reserve_get(theta=ctx.real("theta")))
+        toks += [h.do_reserve_get() for _ in range(m)]
         for t in toks:
             ctx.assume(t.state == "pending")
+        # items may arrive while they wait (a filtered head can hold the others back)
+        for i in range(ctx.choice(3, "n_items_after")):
+            t = h.do_reserve_put()
+            if t.state != "granted":
+                break
+            h.do_put(t, key=ctx.choice(2, "key") if ad.filt else None)
     else:
         # fill the store first: capacity is bounded in this family
         c = int(h.cap)
@@ -887,6 +901,24 @@ def _prefix_priority(h, N, side):
         toks = [h.do_reserve_put() for _ in range(m)]
         for t in toks:
             ctx.assume(t.state == "pending")
+    return h
+
+
+def _prefix_arrivals(h, N):
+    """m retrieval requests wait on an empty store, then n items are put (symbolic delays: they may become available in one instant)"""
+    ctx = h.ctx
+    ad = h.ad
+    m = 1 + ctx.choice(N, "n_waiting_gets")
+    toks = [h.do_reserve_get() for _ in range(m)]
+    n = 1 + ctx.choice(N, "n_puts")
+    same = ctx.choice(2, "same-delay?") if ad.avail == "ghost_delay" else 0
+    d0 = ad.new_delay(h) if same else None
+    for i in range(n):
+        t = h.do_reserve_put()
+        if t.state != "granted":
+            break
+        key = ctx.choice(2, "key") if ad.filt else None
+        h.do_put(t, delay=d0, key=key)
     return h
 
 
@@ -910,6 +942,8 @@ def scenario(store, family, N=3, K=2, oracles=("C01", "C02", "C04", "C05", "C06"
             _prefix_priority(h, N, "get")
         elif family == "prio_put":
             _prefix_priority(h, N, "put")
+        elif family == "arrivals":
+            _prefix_arrivals(h, N)
         elif family == "empty":
             pass
         else:
@@ -1060,6 +1094,9 @@ def scenario_c07(store, N=2, K=1, cap_max=None, twin=False, T=2):
         for t in list(h.toks):
             if t.state == "granted" and t.kind == "get" and ctx.choice(2, "use?"):
                 h.do_get(t)
+        for t in reversed(list(h.toks)):
+            if t.state == "granted" and t.kind == "put" and ctx.choice(2, "use-put?"):
+                h.do_put(t, key=0 if ad.filt else None)
         for _ in range(K):
             if ctx.choice(2, "free-step?"):
                 h.free_step(allow_advance=False)
@@ -1106,11 +1143,11 @@ def _probe(h, quiescent):
     h.observe()
 
 
-def scenario_c11(store, N=2, K=2, cap_max=None, twin=False, R2=1, RMAX=9, S=2):
+def scenario_c11(store, N=2, K=2, cap_max=None, twin=False, R2=1, RMAX=9, S=2, TRN=1):
     def fn(ctx):
         ad = adapter(store)
         h = Harness(ctx, ad, ("C11",), cap_max=cap_max)
-        _prefix_retrieval(h, N, with_transit=True, with_space=True, R2=R2, USE=False, RMAX=RMAX, S=S)
+        _prefix_retrieval(h, N, with_transit=True, with_space=True, R2=R2, USE=False, RMAX=RMAX, S=S, TRN=TRN)
         ctx.hit("prefix-done")
         _probe(h, False)
         for _ in range(K):
@@ -1118,6 +1155,16 @@ def scenario_c11(store, N=2, K=2, cap_max=None, twin=False, R2=1, RMAX=9, S=2):
             _probe(h, False)
         h.advance(ad.final_gap(h))
         _probe(h, True)
+        # take out whatever is retrievable now: every item handed over must have served its own delay (checked in do_get)
+        for t in list(h.toks):
+            if t.kind == "get" and t.state == "granted":
+                h.do_get(t)
+        for _ in range(4):
+            t = h.do_reserve_get()
+            if t.state != "granted":
+                h.do_cancel(t)
+                break
+            h.do_get(t)
         ctx.hit("complete")
         if twin:
             ctx.fail("TWIN:reached-end")
